@@ -18,6 +18,14 @@ extension (built at check time; its ``PyInit`` writes a sentinel) and ``.pyc``-o
   rebinds ``sys.path`` and raises, or imports a missing dependency, for every k; plus "module not found"; the fault packages are loaded through ``griffe.load``, a ``GriffeLoader`` and
   ``griffe.load_git`` in rotation.
 
+Compiled / sourceless / unparseable files sit in every position of a package, each position drawn independently
+per package and the file kind (``.pyc``, ``.pyo``, ABI-tagged / untagged / ``abi3`` ``.so``, plain and tagged ``.pyd``)
+drawn per file: leaf module; ``__init__`` of a sub-package (with source modules, a source sub-package and a
+further compiled ``__init__`` below it); the top-level ``__init__``; next to a same-named ``.py`` / ``.pyi``
+(leaf and ``__init__``); only file of a directory (with and without being an ``__init__``); in a directory without
+``__init__`` inside the package; in a second portion of the package reached through a ``.pth`` file; an
+unparseable ``__init__.py``.
+
 Temporary directories created by the code under test (Git worktrees, temporary packages) are placed below the
 watched directory prefix (``TMPDIR``), so that code run from a worktree is attributed to the analysed tree.
 
@@ -49,6 +57,10 @@ LEVEL = "fault_enumeration"
 ANCHORS = ["loader.py", "importer.py", "agents/inspector.py", "finder.py"]
 RULE = ("static part: seeded packages (regular / namespace / single-file layouts; 2-5 submodules, a subpackage, in-package "
         "and stubs-only stubs, a script directory, a syntax-error module, a real C extension and a .pyc-only module, "
+        "compiled/sourceless files (.pyc .pyo, ABI-tagged/untagged/abi3 .so, .pyd) independently placed as sub-package __init__ "
+        "(with source modules, a source sub-package and another compiled __init__ below), top-level __init__, next to a "
+        "same-named .py/.pyi (leaf and __init__), only file of a directory, in a directory without __init__, in a second "
+        "portion reached through a .pth file, plus an unparseable __init__.py; "
         "external packages reached by from-imports, wildcard imports and a private `_pkg` sibling that may itself be a "
         "single compiled file, optionally located through an editable-install finder) in which every module has "
         "import-time side effects; each package is loaded with ALL 96 combinations resolve_aliases x resolve_external "
@@ -78,7 +90,14 @@ LEVEL_NOTE = ("trusted: CPython's audit events `import`/`exec` and sys.monitorin
               "faults of Python modules; option space limited to the documented loader parameters")
 TECHNIQUE = ("runtime monitoring: sys.addaudithook + sys.monitoring + sentinel files + interpreter-state snapshots around the "
              "real loader/CLI/Git entry points, with enumerated import-time fault injection in generated packages")
-REQUIRED_COUNTERS = ["static_api_cases", "static_cli_inprocess_cases", "static_cli_subprocess_cases",
+REQUIRED_COUNTERS = ["static_cases_on_compiled_package_init", "static_cases_on_compiled_init_in_regular_package",
+                     "packages_with[subpackage-init]", "packages_with[top-init]", "packages_with[leaf-below-compiled-init]",
+                     "packages_with[source-subpackage-below-compiled-init]", "packages_with[compiled-init-below-compiled-init]",
+                     "packages_with[leaf-next-to-py]", "packages_with[leaf-next-to-pyi]", "packages_with[init-next-to-py-init]",
+                     "packages_with[init-next-to-pyi-init]", "packages_with[init-only-file-of-directory]",
+                     "packages_with[leaf-only-file-of-directory]", "packages_with[unparseable-init]",
+                     "packages_with[namespace-subdir-init]", "packages_with[portion-subpackage-init]",
+                     "static_api_cases", "static_cli_inprocess_cases", "static_cli_subprocess_cases",
                      "static_loader_cases", "static_tmp_package_cases", "static_git_api_cases",
                      "static_cli_check_inprocess_cases", "static_cli_check_subprocess_cases", "static_split_path_cases",
                      "git_ref_with_compiled_module_loaded_statically", "cli_check_compared_two_versions",
@@ -88,6 +107,7 @@ REQUIRED_COUNTERS = ["static_api_cases", "static_cli_inprocess_cases", "static_c
                      "state_snapshots_compared", "sys_path_identity_checked", "fault_cases", "fault_point_reached",
                      "not_found_cases", "control_audit_import_fired", "control_audit_exec_fired",
                      "control_py_start_fired", "control_sentinel_fired", "control_state_delta_seen",
+                     "control_compiled_init_package_imported",
                      "compiled_module_present_in_tree", "external_packages_loaded_statically",
                      "audit_exec_events_under_inspection"]
 EXHAUSTIVE = {"quick": False, "thorough": False}
@@ -129,6 +149,8 @@ GIT_FORMS = ["name", "dotted", "relpath"]
 CHECK_AGAINST = [None, "v0.1.0", "HEAD~1"]                  # None: `griffe check` picks the latest tag itself
 CHECK_BASE = [None, "HEAD", "release/next"]                 # None: the new version is loaded from the working tree
 CHECK_STYLES = [None, "oneline", "verbose", "markdown", "github"]
+COMPILED_INIT_PLACEMENTS = {"subpackage-init", "compiled-init-below-compiled-init", "init-next-to-py-init", "init-next-to-pyi-init",
+                            "init-only-file-of-directory", "namespace-subdir-init", "portion-subpackage-init", "top-init"}
 INPROCESS = ("api", "api-loader", "api-tmp", "api-git", "cli", "cli-check")
 COUNTER_OF = {"api": "static_api_cases", "api-loader": "static_loader_cases", "api-tmp": "static_tmp_package_cases",
               "api-git": "static_git_api_cases", "cli": "static_cli_inprocess_cases",
@@ -200,12 +222,38 @@ def body(rng: random.Random, stem: str) -> str:
     return out
 
 
+COMPILED_KINDS = ["pyc", "pyc", "tagged", "tagged", "untagged", "abi3", "pyd", "wintag", "pyo"]
+NATIVE_SUFFIX = {"tagged": EXT_SUFFIX, "untagged": ".so", "abi3": ".abi3.so", "pyd": ".pyd", "wintag": ".cp312-win_amd64.pyd"}
+
+
+def native_rel(item) -> str:  # noqa: ANN001
+    """Entries of pkg["native"]: "dir/name" (module `name`, ABI-tagged file) or {"rel", "init", "suffix"}."""
+    return item if isinstance(item, str) else item["rel"]
+
+
+def native_parts(item) -> tuple[str, str, str]:  # noqa: ANN001
+    """(path without suffix, name of the PyInit function = last part of the module name, file suffix)."""
+    if isinstance(item, str):
+        return item, os.path.basename(item), EXT_SUFFIX
+    return item["rel"], item["init"], NATIVE_SUFFIX[item["suffix"]]
+
+
+def compiled_names(pkg: dict) -> set[str]:
+    """Module names (last part) of every compiled / sourceless module of the package."""
+    out = {native_parts(n)[1] for n in pkg["native"]}
+    for rel in pkg["pyc"]:
+        stem = os.path.basename(rel).rsplit(".", 1)[0]
+        out.add(os.path.basename(os.path.dirname(rel)) if stem == "__init__" else stem)
+    return out
+
+
 def gen_static_pkg(rng: random.Random, tag: str) -> dict:
     top, ext, ext2, priv = f"vfk{tag}", f"vfe{tag}", f"vfg{tag}", f"_vfk{tag}"
     files: dict[str, str] = {}
     pyc: dict[str, str] = {}
     native: list[str] = []
-    layout = rng.choice(["package", "package", "package", "package", "namespace", "single"])
+    placements: list[str] = []
+    layout = rng.choice(["package", "package", "package", "package", "namespace", "single", "cinit"])
     subs = ["a", "b"] + sorted(rng.sample(["c", "d", "e"], rng.randint(0, 2)))
     priv_shape = rng.choice(["none", "package", "py", "native", "native", "pyc"])
     ext_where = rng.choice(["sp", "sp", "alt"])
@@ -213,6 +261,16 @@ def gen_static_pkg(rng: random.Random, tag: str) -> dict:
 
     def mod(rel: str, name: str, text: str, doc: bool = True) -> None:
         files[rel] = (f'"""Module {name}."""\n' if doc else "") + preamble(name) + text
+
+    def compiled(label: str, rel: str, name: str, text: str = "", kinds: list[str] = COMPILED_KINDS) -> None:
+        """A compiled / sourceless module `name` at `rel` (no suffix): bytecode-only or an extension-module file name."""
+        kind = rng.choice(kinds)
+        stem = name.rsplit(".", 1)[-1]
+        if kind in ("pyc", "pyo"):
+            pyc[f"{rel}.{kind}"] = preamble(name) + (text or body(rng, stem.strip("_") or "m"))
+        else:
+            native.append({"rel": rel, "init": stem, "suffix": kind})
+        placements.append(f"{label}:{kind}")
 
     imports = (f"from {top}.a import fa\nfrom .b import Kb as BB\nfrom {ext} import fext, Kext\nfrom {ext}.deep import Kdeep\n"
                f"from {ext}.star import *\nimport {ext}.deep\nfrom {ext2} import fg\n")
@@ -228,11 +286,14 @@ def gen_static_pkg(rng: random.Random, tag: str) -> dict:
     else:
         if layout == "package":
             mod(f"sp/{top}/__init__.py", top, init_text)
+        elif layout == "cinit":   # the top-level __init__ itself is compiled / sourceless
+            compiled("top-init", f"sp/{top}/__init__", top, init_text, ["pyc", "pyc", "pyo", "tagged", "untagged", "pyd"])
         for s in subs:
             other = "b" if s != "b" else "a"
             mod(f"sp/{top}/{s}.py", f"{top}.{s}", f"from .{other} import K{other} as Other\nfrom {ext} import fext as e_{s}\n" + body(rng, s))
         n_modules = len(subs) + (layout == "package")
-        if rng.random() < 0.75:
+        has_sub = rng.random() < 0.75
+        if has_sub:
             mod(f"sp/{top}/sub/__init__.py", f"{top}.sub", f"from ..a import fa as up\nfrom {ext2} import fg as g_up\n__all__ = ['up', 'g_up']\n" + body(rng, "sub"))
             mod(f"sp/{top}/sub/leaf.py", f"{top}.sub.leaf", f"from {top}.sub import up\nfrom {ext}.star import *\n" + body(rng, "leaf"))
             n_modules += 2
@@ -250,6 +311,50 @@ def gen_static_pkg(rng: random.Random, tag: str) -> dict:
             mod(f"sp/{top}/broken.py", f"{top}.broken", "def broken(:\n    pass\n")
         if rng.random() < 0.3:
             mod(f"sp/{top}/__main__.py", f"{top}.__main__", "raise SystemExit(4)\n")
+        # ---- where else compiled / sourceless / unparseable files sit (each placement drawn independently)
+        if rng.random() < 0.55:   # a sub-package whose __init__ is compiled, with source modules and packages below it
+            compiled("subpackage-init", f"sp/{top}/cpk/__init__", f"{top}.cpk", "from . import impl\n" + body(rng, "cpk"))
+            mod(f"sp/{top}/cpk/impl.py", f"{top}.cpk.impl", f"from {ext} import fext as e_impl\n" + body(rng, "impl"))
+            if rng.random() < 0.5:
+                compiled("leaf-below-compiled-init", f"sp/{top}/cpk/fast", f"{top}.cpk.fast")
+            if rng.random() < 0.6:
+                mod(f"sp/{top}/cpk/inner/__init__.py", f"{top}.cpk.inner", "from .mod import fmod\n" + body(rng, "inner"))
+                mod(f"sp/{top}/cpk/inner/mod.py", f"{top}.cpk.inner.mod", body(rng, "mod"))
+                placements.append("source-subpackage-below-compiled-init:py")
+            if rng.random() < 0.5:
+                compiled("compiled-init-below-compiled-init", f"sp/{top}/cpk/deep/__init__", f"{top}.cpk.deep")
+                mod(f"sp/{top}/cpk/deep/low.py", f"{top}.cpk.deep.low", body(rng, "low"))
+            if rng.random() < 0.5 and layout != "namespace":
+                files[f"sp/{top}/__init__.py" if layout == "package" else f"sp/{top}/a.py"] += f"from {top}.cpk import fcpk\n"
+        if rng.random() < 0.4:
+            compiled("leaf-next-to-py", f"sp/{top}/a", f"{top}.a")
+        if rng.random() < 0.4:
+            compiled("leaf-next-to-pyi", f"sp/{top}/dupi", f"{top}.dupi")
+            mod(f"sp/{top}/dupi.pyi", f"{top}.dupi(stub)", "def fdupi(x: int = ...) -> int: ...\n", doc=False)
+        if has_sub and rng.random() < 0.4:
+            compiled("init-next-to-py-init", f"sp/{top}/sub/__init__", f"{top}.sub")
+        if rng.random() < 0.35:
+            compiled("init-next-to-pyi-init", f"sp/{top}/cpi/__init__", f"{top}.cpi")
+            mod(f"sp/{top}/cpi/__init__.pyi", f"{top}.cpi(stub)", "def fcpi(x: int = ...) -> int: ...\n", doc=False)
+            mod(f"sp/{top}/cpi/impl.py", f"{top}.cpi.impl", body(rng, "cpiimpl"))
+        if rng.random() < 0.4:
+            compiled("init-only-file-of-directory", f"sp/{top}/onlyc/__init__", f"{top}.onlyc")
+        if rng.random() < 0.4:
+            compiled("leaf-only-file-of-directory", f"sp/{top}/lone/solo", f"{top}.lone.solo")
+        if rng.random() < 0.3:   # unparseable source in the __init__ position, importable-looking module below it
+            mod(f"sp/{top}/bad/__init__.py", f"{top}.bad", rng.choice(["def broken(:\n    pass\n", "x = (\n", "\x00\n"]))
+            mod(f"sp/{top}/bad/ok.py", f"{top}.bad.ok", body(rng, "ok"))
+            placements.append("unparseable-init:py")
+        if rng.random() < 0.4:   # a directory without __init__ (namespace-like) holding compiled modules and a compiled package
+            compiled("namespace-subdir-leaf", f"sp/{top}/nsd/cmod", f"{top}.nsd.cmod")
+            compiled("namespace-subdir-init", f"sp/{top}/nsd/npk/__init__", f"{top}.nsd.npk")
+            mod(f"sp/{top}/nsd/npk/impl.py", f"{top}.nsd.npk.impl", body(rng, "npkimpl"))
+        if rng.random() < (0.85 if layout == "namespace" else 0.3):   # a second portion of the package in another directory
+            files[f"sp/vf_portion_{top}.pth"] = "@PORT@\n"
+            mod(f"port/{top}/pa.py", f"{top}.pa", f"from {ext2} import fg as g_pa\n" + body(rng, "pa"))
+            compiled("portion-leaf", f"port/{top}/pc", f"{top}.pc")
+            compiled("portion-subpackage-init", f"port/{top}/ppk/__init__", f"{top}.ppk")
+            mod(f"port/{top}/ppk/impl.py", f"{top}.ppk.impl", body(rng, "ppkimpl"))
     if rng.random() < 0.6:
         mod(f"sp/{top}-stubs/__init__.pyi", f"{top}-stubs", "def ftop(x: int = ...) -> int: ...\n", doc=False)
         if layout != "single":
@@ -281,8 +386,9 @@ def gen_static_pkg(rng: random.Random, tag: str) -> dict:
         native.append(f"sp/{priv}")
     elif priv_shape == "pyc":
         pyc[f"sp/{priv}.pyc"] = preamble(priv) + body(rng, "priv")
-    compiled_in_top = any(n.startswith(f"sp/{top}/") for n in native) or any(n.startswith(f"sp/{top}/") for n in pyc)
+    compiled_in_top = any(native_rel(n).startswith(f"sp/{top}/") for n in native) or any(n.startswith(f"sp/{top}/") for n in pyc)
     return {"top": top, "owned": owned, "files": files, "pyc": pyc, "native": native, "layout": layout,
+            "placements": sorted(placements),
             "dotted": f"{top}.a" if layout != "single" else top, "priv_shape": priv_shape,
             "others": [n for n in (ext, ext2, priv if priv_shape != "none" else None) if n],
             "nontrivial": bool(n_modules + len(native) + len(pyc) >= 3 and compiled_in_top)}
@@ -375,27 +481,30 @@ class Tree:
         self.alt = os.path.join(self.root, "alt")
         self.work = os.path.join(self.root, "build")
         self.empty = os.path.join(self.root, "empty")   # a search path in which nothing can be found
-        for d in (self.sent, self.sp, self.alt, self.work, self.empty):
+        self.port = os.path.join(self.root, "port")     # second portion of the package, reached through a .pth file
+        for d in (self.sent, self.sp, self.alt, self.work, self.empty, self.port):
             os.makedirs(d)
         self.fixture = set()
         for rel, text in pkg["files"].items():
             self._write(rel, self._subst(text).encode())
         for rel, text in pkg["pyc"].items():
-            src = os.path.join(self.root, rel[:-1])  # would-be .py path: becomes co_filename
-            os.makedirs(os.path.dirname(src), exist_ok=True)
+            cfile = os.path.join(self.root, rel)
+            would_be = os.path.splitext(cfile)[0] + ".py"   # becomes co_filename (a same-named source may sit there)
+            os.makedirs(os.path.dirname(cfile), exist_ok=True)
+            src = os.path.join(self.work, "bytecode-source.py")
             with open(src, "w") as fh:
                 fh.write(self._subst(text))
-            py_compile.compile(src, cfile=src + "c", doraise=True)
+            py_compile.compile(src, cfile=cfile, dfile=would_be, doraise=True)
             os.unlink(src)
-        for rel in pkg["native"]:
-            name = os.path.basename(rel)
+        for item in pkg["native"]:
+            rel, name, suffix = native_parts(item)
             blob = build_native(name, self.work)
             self.fixture.add("real C extension (gcc)" if blob else "fake .so bytes (no toolchain)")
-            self._write(rel + EXT_SUFFIX, blob or b"\x7fELF this is not a shared object")
+            self._write(rel + suffix, blob or b"\x7fELF this is not a shared object")
         self.listing = self.snapshot()
 
     def _subst(self, text: str) -> str:
-        return text.replace("@SENT@", repr(self.sent)).replace("@ALT@", self.alt)
+        return text.replace("@SENT@", repr(self.sent)).replace("@ALT@", self.alt).replace("@PORT@", self.port)
 
     def _write(self, rel: str, data: bytes) -> None:
         p = os.path.join(self.root, rel)
@@ -415,7 +524,7 @@ class Tree:
             return
         git = gitstate.git
         git(self.root, "init", "-q", ".")
-        tracked = [d for d in ("sp", "alt") if os.listdir(os.path.join(self.root, d))]
+        tracked = [d for d in ("sp", "alt", "port") if os.listdir(os.path.join(self.root, d))]
         if history:
             top = pkg["top"]
             olds = {}
@@ -446,7 +555,7 @@ class Tree:
 
     def snapshot(self) -> list[str]:
         out = []
-        for base in (self.sp, self.alt):
+        for base in (self.sp, self.alt, self.port):
             for root, _dirs, names in os.walk(base):
                 out.extend(os.path.relpath(os.path.join(root, n), self.root) for n in names)
         return sorted(out)
@@ -718,7 +827,7 @@ def run_static_case(ctx: Ctx, tree: Tree, pkg: dict, case: dict, dig: str) -> bo
     rec.count(f"py_start_events[{klass}]", len(seen["py_starts"]))
     rec.add_to_set(f"outcomes[{klass}]", outcome.split(":")[0][:60])
     # what the returned tree says about compiled modules / external packages (evidence, not verdict)
-    names = {os.path.basename(n) for n in pkg["native"]} | {os.path.basename(n)[:-4] for n in pkg["pyc"]}
+    names = compiled_names(pkg)
     if result is not None:
         try:
             coll = result.modules_collection
@@ -727,7 +836,8 @@ def run_static_case(ctx: Ctx, tree: Tree, pkg: dict, case: dict, dig: str) -> bo
             if names:
                 rec.count("compiled_module_present_in_tree")
                 top = coll[pkg["top"]] if pkg["top"] in coll else None
-                if top is not None and any(m.name in names for m in walk_modules(top)):
+                if top is not None and any(isinstance(m.filepath, Path) and m.filepath.suffix not in (".py", ".pyi")
+                                           for m in walk_modules(top)):
                     rec.count("compiled_module_appears_as_member")
                 else:
                     rec.count("compiled_module_skipped_in_result")
@@ -768,6 +878,11 @@ def run_static_case(ctx: Ctx, tree: Tree, pkg: dict, case: dict, dig: str) -> bo
                  expected="no execution, no state change", nontrivial=pkg.get("nontrivial", False), tags=(klass,))
         return False
     rec.count(COUNTER_OF[via])
+    labels = {p.split(":")[0] for p in pkg.get("placements", ())}
+    if labels & COMPILED_INIT_PLACEMENTS and case["options"].get("submodules", True) is not False:
+        rec.count("static_cases_on_compiled_package_init")
+        if "subpackage-init" in labels and pkg.get("layout") == "package":
+            rec.count("static_cases_on_compiled_init_in_regular_package")
     rec.ok(case, nontrivial=pkg.get("nontrivial", False), tags=(klass,), dig=dig)
     return True
 
@@ -852,6 +967,10 @@ def run_static_package(ctx: Ctx, pkg: dict, pidx: int, plan: dict) -> None:
     for f in tree.fixture:
         rec.add_to_set("compiled_fixture", f)
     pdig = digest({k: pkg[k] for k in ("files", "pyc", "native")})
+    for p in pkg.get("placements", ()):
+        rec.count(f"packages_with[{p.split(':')[0]}]")
+        rec.add_to_set("compiled_placements", p)
+    rec.add_to_set("layouts", pkg.get("layout", "?"))
     try:
         for c in static_cases_for(pkg, pidx, plan):
             rec.add_to_set("option_sets_" + c["via"].replace("-", "_"), opt_key(c["options"]))
@@ -998,8 +1117,12 @@ def run_control(ctx: Ctx, rng: random.Random, tag: str) -> None:
              and "broken" not in k and "scripts" not in k and "__main__" not in k}
     files = {k: "\n".join(line for line in v.splitlines() if "import" not in line or "__import__" in line) + "\n" for k, v in files.items()}
     files.setdefault(f"sp/{top}/__init__.py", preamble(top))
-    ctl = {"top": top, "owned": [top], "files": files, "native": [f"sp/{top}/_native"],
-           "pyc": {f"sp/{top}/bytec.pyc": preamble(f"{top}.bytec") + "X = 1\n"}}
+    files = {k: v for k, v in files.items() if not k.startswith((f"sp/{top}/cpkc/", f"sp/{top}/cpkn/", f"sp/{top}/cpku/"))}
+    ctl = {"top": top, "owned": [top], "files": files,
+           "native": [f"sp/{top}/_native", {"rel": f"sp/{top}/cpkn/__init__", "init": "cpkn", "suffix": "tagged"},
+                      {"rel": f"sp/{top}/cpku/__init__", "init": "cpku", "suffix": "untagged"}],
+           "pyc": {f"sp/{top}/bytec.pyc": preamble(f"{top}.bytec") + "X = 1\n",
+                   f"sp/{top}/cpkc/__init__.pyc": preamble(f"{top}.cpkc") + "Y = 1\n"}}
     tree = Tree(ctl, ctx.base)
     os.environ["VF_C15_SENT"] = tree.sent
     sys.path.insert(0, tree.sp)
@@ -1007,7 +1130,7 @@ def run_control(ctx: Ctx, rng: random.Random, tag: str) -> None:
     ctx.witness.arm({top})
     errors = []
     try:
-        for name in (top, f"{top}._native", f"{top}.bytec"):
+        for name in (top, f"{top}._native", f"{top}.bytec", f"{top}.cpkc", f"{top}.cpkn", f"{top}.cpku"):
             try:
                 importlib.import_module(name)
             except BaseException as exc:  # noqa: BLE001
@@ -1016,6 +1139,10 @@ def run_control(ctx: Ctx, rng: random.Random, tag: str) -> None:
         seen = ctx.witness.disarm()
     sent = tree.sentinels()
     real = any("real" in f for f in tree.fixture)
+    # the compiled-__init__ fixtures really are importable packages (sourceless, ABI-tagged and untagged extension)
+    as_pkg = [n for n in ("cpkc", "cpkn", "cpku") if hasattr(sys.modules.get(f"{top}.{n}"), "__path__")]
+    if f"py-{top}.cpkc" in sent and "cpkc" in as_pkg and (not real or {"native-cpkn", "native-cpku"} <= set(sent)):
+        rec.count("control_compiled_init_package_imported")
     if seen["imports"]:
         rec.count("control_audit_import_fired")
     if seen["execs"]:
